@@ -1,7 +1,7 @@
 (* C16 — little-endian base64 matches its bit-level definition; decode inverts encode.
    Only statements, each closed by [exact] of a lemma proved in B64/B64Proofs.v. *)
 Require Import GC.Base.Bytes GC.B64.B64Model GC.B64.B64Spec GC.B64.B64Proofs.
-Require Import GC.Generated.Gen_consts GC.Tie.Tie_consts.
+Require Import GC.Generated.Gen_consts GC.Schemes.Consts GC.Tie.Tie_consts.
 
 (* Encode produces, for every byte string and every encoding, the symbols indexed by successive 6-bit
    groups (least significant first) of b0 + 2^8 b1 + 2^16 b2, with 2/3 symbols (+ padding) for tails *)
